@@ -500,14 +500,16 @@ class Run:
             else:
                 res["reason"] = "canary not detected: mutated contract still verifies (contract too weak or harness vacuous)"
         else:
-            if has_reach and not reach_ok:
-                res["reason"] = "harness end unreachable: obligations would be vacuous"
-            elif not has_reach and not job.get("noreach"):
-                res["reason"] = "harness has no VREACH marker"
-            elif failed:
+            if failed:
+                # a failing obligation is reported even when it also cuts off the end of the harness
+                # (e.g. an internal assert()/bug() path that became reachable)
                 res["status"] = "failed"
                 for p in failed:
                     res["failed"].append(self.describe_failure(job, p, jd))
+            elif has_reach and not reach_ok:
+                res["reason"] = "harness end unreachable: obligations would be vacuous"
+            elif not has_reach and not job.get("noreach"):
+                res["reason"] = "harness has no VREACH marker"
             else:
                 res["status"] = "ok"
         res["wall_s"] = round(time.time() - t0, 2)
